@@ -45,6 +45,7 @@ func checkC17(ctx *Ctx, r *Report) {
 	c17FourthRound(ctx, r)
 	c17MethodChangeLocated(ctx, r)
 	c17FifthRound(ctx, r)
+	c16DismissalNeedsLostOptions(ctx, r)
 	c18LiteralsShareSlices(ctx, r)
 	// the copies veneers rely on
 	for _, m := range findCopyMethods(ctx) {
